@@ -429,7 +429,38 @@ def generate_layered(repo):
     return mod.result(), mod.hashes
 
 
+# ------------------------------------------------------------------------------------ Gen_ray2
+def generate_gradient(repo):
+    """Geometry of the gradient-index tracers that C02 reasons about (pyrex/ray_tracing.py):
+    BasicRayTracePath (inherited unchanged by SpecializedRayTracePath): rho, phi, beta, theta(z),
+    emitted / received direction; BasicRayTracer (inherited by SpecializedRayTracer): z0/z1 = min/max,
+    rho, n0, max_angle, conversion of the lower-endpoint angle to the true launch angle."""
+    mod = Module(repo, "pyrex/ray_tracing.py", records={"Ice": ICE_RECORD, "GPath": GPATH_RECORD, "GTracer": GTRACER_RECORD})
+    mod.emit("From PyrexLib Require Import ListR.\nFrom PyrexGen Require Import Gen_ice.")
+    decl_record(mod, "GPath")
+    decl_record(mod, "GTracer")
+    for cname, pref in (("BasicRayTracePath", "BasicRayTracePath"), ("SpecializedRayTracePath", "SpecializedRayTracePath")):
+        cp = ClassTr(mod, cname, record="GPath", prefix=pref)
+        cp.fn_class = RayFn
+        for m in ["z0", "z1", "n0", "rho", "phi", "beta", "theta", "emitted_direction", "received_direction"]:
+            if cp.member(m) is None:
+                raise TranslationError("pyrex/ray_tracing.py: %s.%s not found" % (cname, m))
+    for cname in ("BasicRayTracer", "SpecializedRayTracer"):
+        ct = ClassTr(mod, cname, record="GTracer")
+        ct.fn_class = RayFn
+        for m in ["z0", "z1", "n0", "rho", "max_angle"]:
+            if ct.member(m) is None:
+                raise TranslationError("pyrex/ray_tracing.py: %s.%s not found" % (cname, m))
+        snippet(ct, "_get_launch_angle", cname + "_get_launch_angle__true_angle",
+                lambda fn: [c.value for c in ast.walk(fn) if isinstance(c, ast.Return) and c.value is not None][-1],
+                [("launch_angle", "R")], want_type="R")
+        snippet(ct, "direct_angle", cname + "_direct_angle__from_above", assigns_to("launch_angle", 1), [("launch_angle", "R")], want_type="R")
+        snippet(ct, "direct_angle", cname + "_direct_angle__is_from_above",
+                lambda fn: [c.test for c in ast.walk(fn) if isinstance(c, ast.If) and "from_point" in ast.unparse(c.test)][0], [], want_type="bool")
+    return mod.result(), mod.hashes
+
+
 if __name__ == "__main__":
     which = sys.argv[2] if len(sys.argv) > 2 else "uniform"
-    text, h = {"uniform": generate_uniform, "layered": generate_layered}[which](sys.argv[1])
+    text, h = {"uniform": generate_uniform, "layered": generate_layered, "gradient": generate_gradient}[which](sys.argv[1])
     print(text)
